@@ -74,9 +74,13 @@ Definition norm_tgt (d : sd) : string :=
 
 Record dinfo := { di_src : option (path * bool); di_tgt : option (path * bool); di_act : action;
                   di_eff : path;             (* where the data has to end up *)
-                  di_input : bool; di_task : nat }.
+                  di_input : bool; di_task : nat; di_idx : nat }.
 
-Definition mk_dinfo (fs0 : fsys) (sb : sandboxes) (input : bool) (k : nat) (d : sd) : dinfo :=
+Fixpoint enum {A} (k : nat) (l : list A) : list (nat * A) :=
+  match l with [] => [] | x :: r => (k, x) :: enum (S k) r end.
+
+Definition mk_dinfo (fs0 : fsys) (sb : sandboxes) (input : bool) (k : nat) (id : nat * sd) : dinfo :=
+  let d := snd id in
   let s := denote (negb (client_side (s_act d))) sb (src_default sb input (s_act d)) (s_src d) in
   let g := denote (negb (client_side (s_act d))) sb (tgt_default sb input (s_act d)) (norm_tgt d) in
   let eff := match s, g with
@@ -85,7 +89,8 @@ Definition mk_dinfo (fs0 : fsys) (sb : sandboxes) (input : bool) (k : nat) (d : 
              | _, Some (gp, _) => gp
              | _, None => []
              end in
-  {| di_src := s; di_tgt := g; di_act := s_act d; di_eff := eff; di_input := input; di_task := k |}.
+  {| di_src := s; di_tgt := g; di_act := s_act d; di_eff := eff; di_input := input; di_task := k;
+     di_idx := fst id |}.
 
 Fixpoint is_prefix (a b : path) : bool :=
   match a, b with
@@ -105,12 +110,9 @@ Definition supported (input : bool) (a : action) : bool :=
 Definition abs_exec (t : task) : list (path * Z) :=
   map (fun e => (sandbox_path t ++ fst e, snd e)) (t_exec t).
 
-Fixpoint enum {A} (k : nat) (l : list A) : list (nat * A) :=
-  match l with [] => [] | x :: r => (k, x) :: enum (S k) r end.
-
 Definition task_dinfos (fs0 : fsys) (kt : nat * task) : list dinfo :=
   let '(k, t) := kt in
-  map (mk_dinfo fs0 (t_sb t) true k) (t_in t) ++ map (mk_dinfo fs0 (t_sb t) false k) (t_out t).
+  map (mk_dinfo fs0 (t_sb t) true k) (enum 0 (t_in t)) ++ map (mk_dinfo fs0 (t_sb t) false k) (enum 0 (t_out t)).
 
 (* every path some directive, the tarball or the execution reads or writes *)
 Definition mentions (fs0 : fsys) (ts : list (nat * task)) : list path :=
@@ -238,6 +240,89 @@ Section Clauses.
       let t := snd kt in
       if forallb (good fs0 m t) (task_dinfos fs0 kt)
       then ends_in (t_outcome t) (states (fst kt)) else true) ts.
+
+  (* ---- overwrites: several transfer/copy directives (of one task, of several
+     tasks, of several bulks) write the same path, or the path holds a file
+     before the run.  The content at the end is judged against the LAST
+     directive writing the path.  Order: bulks one after the other; inside a
+     bulk client-side input (transfer), agent-side input (copy), agent-side
+     output, client-side output; inside one task and stage the list order.
+     Writers of different tasks in the same bulk and stage are not ordered by
+     the property: each task's last writer is acceptable. *)
+  Variable bulk : nat -> nat.            (* bulk number of task k *)
+
+  Definition plain_writer (di : dinfo) : bool :=
+    (action_eqb (di_act di) Transfer || action_eqb (di_act di) Copy)
+    && match di_src di, di_tgt di with Some _, Some _ => true | _, _ => false end.
+
+  Definition stage_rank (di : dinfo) : nat :=
+    if di_input di then (if client_side (di_act di) then 0 else 1)
+    else (if client_side (di_act di) then 3 else 2).
+  Definition wkey (di : dinfo) : nat := 4 * bulk (di_task di) + stage_rank di.
+
+  Definition all_dinfos : list dinfo := List.concat (map (task_dinfos fs0) ts).
+  Definition task_of (k : nat) : option task :=
+    match find (fun kt => Nat.eqb (fst kt) k) ts with Some kt => Some (snd kt) | None => None end.
+
+  (* the source of a writer is read-only in the whole case *)
+  Definition src_stable (di : dinfo) : bool :=
+    match di_src di, task_of (di_task di) with
+    | Some (s, _), Some t =>
+        forallb (fun d' => negb (related s (di_eff d'))
+                           && negb (action_eqb (di_act d') Move
+                                    && match di_src d' with Some (s', _) => related s s' | None => false end))
+                all_dinfos
+        && forallb (fun kt => forallb (fun e => negb (related s (fst e))
+                                                || (Nat.eqb (fst kt) (di_task di) && negb (di_input di)
+                                                    && path_eqb (fst e) s))
+                                      (abs_exec (snd kt))) ts
+        && negb (existsb (fun kt => existsb (has_action [Tarball]) (t_in (snd kt))
+                                    && related s (sandbox_path (snd kt) ++ [tar_name (snd kt)])) ts)
+    | _, _ => false
+    end.
+
+  (* the task of a writer got through the stage the writer belongs to *)
+  Definition writer_ran (di : dinfo) : bool :=
+    match task_of (di_task di) with
+    | Some t => if di_input di then passed_input (states (di_task di))
+                else tstate_eqb (t_outcome t) DONE && ends_in DONE (states (di_task di))
+    | None => false
+    end.
+
+  Definition writer_content (di : dinfo) : option Z :=
+    match task_of (di_task di) with Some t => src_content fs0 t di | None => None end.
+
+  Fixpoint max_key (l : list dinfo) : nat :=
+    match l with [] => 0 | d :: r => Nat.max (wkey d) (max_key r) end.
+
+  (* the last writer (list order) of every task among the writers of the last stage *)
+  Definition is_task_last (g : list dinfo) (di : dinfo) : bool :=
+    forallb (fun d' => negb (Nat.eqb (di_task d') (di_task di)) || Nat.leb (di_idx d') (di_idx di)) g.
+
+  Definition judge_path (input_side : bool) (e : path) : bool :=
+    let w := filter (fun di => plain_writer di && path_eqb (di_eff di) e) all_dinfos in
+    match w with
+    | [] => true
+    | _ =>
+        let g := filter (fun di => Nat.eqb (wkey di) (max_key w)) w in
+        let judged :=
+          (* every mention of something at, above or below e is one of these writes *)
+          Nat.eqb (count_related e m) (List.length w)
+          && match e with [] => false | _ => true end
+          && negb (is_dir e fs0)
+          && negb (existsb (fun x => match snd x with F _ => is_prefix (fst x) e && negb (path_eqb (fst x) e)
+                                                   | D => false end) fs0)
+          && forallb (fun di => Bool.eqb (di_input di) input_side) g
+          && forallb (fun di => writer_ran di && src_stable di
+                                && match writer_content di with Some _ => true | None => false end) g in
+        if judged
+        then existsb (fun di => is_task_last g di
+                                && match writer_content di with Some z => has_file tree e z | None => false end) g
+        else true
+    end.
+
+  Definition ok_last_writer (input_side : bool) : bool :=
+    forallb (fun di => negb (plain_writer di) || judge_path input_side (di_eff di)) all_dinfos.
 End Clauses.
 
 (* -------------------------------------------------------------------- the row *)
@@ -261,9 +346,9 @@ Definition model_tobs (fin : list task) (ti : task_in) (e : err + task) : tobs :
       end
   end.
 
-Definition model_obs (tis : list task_in) (fs0 : fsys) : list tobs * fsys :=
-  let '(ex, fs', fin) := run_case tis fs0 in
-  (map (fun p => model_tobs fin (fst p) (snd p)) (combine tis ex), fs').
+Definition model_obs (bs : list (list task_in)) (fs0 : fsys) : list tobs * fsys :=
+  let '(ex, fs', fin) := run_bulks bs fs0 in
+  (map (fun p => model_tobs fin (fst p) (snd p)) (combine (List.concat bs) ex), fs').
 
 (* number the tasks the way the harness does (position in the case), keeping
    only those that expanded *)
@@ -274,13 +359,21 @@ Fixpoint numbered (k : nat) (l : list (err + task)) : list (nat * task) :=
   | inl _ :: r => numbered (S k) r
   end.
 
-Definition c11_row (tis : list task_in) (fs0 : fsys) (obs : list tobs) (tree : fsys) : list bool :=
-  let '(mo, mfs) := model_obs tis fs0 in
-  let ts := numbered 0 (map expand_task tis) in
+(* bulk number of the task at position k *)
+Fixpoint bulk_of (bs : list (list task_in)) (b k : nat) : nat :=
+  match bs with
+  | [] => b
+  | x :: r => if Nat.ltb k (List.length x) then b else bulk_of r (S b) (k - List.length x)
+  end.
+
+Definition c11_row (bs : list (list task_in)) (fs0 : fsys) (obs : list tobs) (tree : fsys) : list bool :=
+  let '(mo, mfs) := model_obs bs fs0 in
+  let ts := numbered 0 (map expand_task (List.concat bs)) in
   let states k := match nth_error obs k with Some o => snd (fst o) | None => [] end in
+  let bulk := bulk_of bs 0 in
   [ eqb_list tobs_eqb mo obs && fs_eqb mfs tree;
-    ok_input_staged fs0 tree ts states;
-    ok_output_staged fs0 tree ts states;
+    ok_input_staged fs0 tree ts states && ok_last_writer fs0 tree ts states bulk true;
+    ok_output_staged fs0 tree ts states && ok_last_writer fs0 tree ts states bulk false;
     ok_failed_no_output fs0 tree ts;
     ok_bad_fails fs0 ts states;
     ok_only_that_task fs0 ts states ].
